@@ -130,7 +130,6 @@ evaluate_filter.contract.trusted_ensures = [
 
 
 # ---------------------------------------------------------------------------------------------------- Subscription.build_query
-@REG.model("NostrQuery")
 def _nostrquery_ctor(sx, args, kwargs, st, node):
     # NostrQuery(): every field None except limit, whose default is Config.max_limit read at class-definition time
     if args or kwargs:
@@ -144,6 +143,11 @@ def _nostrquery_ctor(sx, args, kwargs, st, node):
     st.assume(z3.Implies(z3.Not(lt.is_none(lim)), lt.get(lim) >= 0))
     return [R(st, q)]
 
+
+from .base import NostrQueryCls  # noqa: E402
+
+# the class object is shared with contracts/base.py (NostrQuery.model_validate); calling it is the constructor above
+NostrQueryCls.__pyvc_call__ = lambda self, sx, args, kwargs, st, node: _nostrquery_ctor(sx, args, kwargs, st, node)
 
 QLIMITS = "all_range(0, len(filters), lambda i: implies(filters[i].limit is not None, filters[i].limit >= 0))"
 build_query = REG.unit(Unit(
